@@ -90,7 +90,8 @@ class C09(Prop):
         if case["l1"] is not None:
             l1s = [e["l1"] for e in extra]; l1s.insert(row, case["l1"])
             kw.update(L1=(np.array(l1s) if extra else case["l1"]), l1_eps=case["l1_eps"])
-        Eps = None if case["Eps"] is None else np.array(case["Eps"])
+        core.watch(Bin)
+        Eps = None if case["Eps"] is None else core.watch(np.array(case["Eps"]))
         # warm-up with another tolerance on the same object: must leave no trace (also exercises "asked twice")
         gs.warm(lambda: est.minimize_variance(Bin, Epsilon=Eps, l2_eps=(1e-2 if case["l2_eps"] < 1e-3 else 1e-5), **kw))
         fallback = False
